@@ -323,6 +323,11 @@ func c17Case(c *Ctx, i int, r *rand.Rand) {
 
 // runProbeProgram runs a program that prints "P<k> <value>" lines and compares with expectations.
 func runProbeProgram(c *Ctx, caseIdx int, src string, probes []c17Probe, tag string) {
+	runProbeProgramNorm(c, caseIdx, src, probes, nil)
+}
+
+// runProbeProgramNorm is runProbeProgram with an optional normaliser applied to each printed value.
+func runProbeProgramNorm(c *Ctx, caseIdx int, src string, probes []c17Probe, norm func(k int, got string) string) {
 	res := RunElk(src, nil)
 	c.Eval(int64(len(probes)))
 	c.Count("programs", 1)
@@ -336,17 +341,19 @@ func runProbeProgram(c *Ctx, caseIdx int, src string, probes []c17Probe, tag str
 		return
 	}
 	got := map[int]string{}
+	cur := -1
 	for _, ln := range strings.Split(res.Stdout, "\n") {
-		if !strings.HasPrefix(ln, "P") {
-			continue
+		if strings.HasPrefix(ln, "P") {
+			if sp := strings.IndexByte(ln, ' '); sp > 1 && strings.Trim(ln[1:sp], "0123456789") == "" {
+				var k int
+				fmt.Sscanf(ln[:sp], "P%d", &k)
+				got[k] = ln[sp+1:]
+				cur = k
+				continue
+			}
 		}
-		sp := strings.IndexByte(ln, ' ')
-		if sp < 0 {
-			continue
-		}
-		var k int
-		if _, err := fmt.Sscanf(ln[:sp], "P%d", &k); err == nil {
-			got[k] = ln[sp+1:]
+		if cur >= 0 && ln != "" {
+			got[cur] += "\n" + ln // multi-line inspect output
 		}
 	}
 	for k, pr := range probes {
@@ -355,6 +362,9 @@ func runProbeProgram(c *Ctx, caseIdx int, src string, probes []c17Probe, tag str
 		if !ok {
 			c.Violate(pr.site+":no-output", fmt.Sprintf("probe %d (%s) printed nothing; runtime error: %s\n%s\nprogram:\n%s", k, pr.what, res.ErrInspect, head(res.Trace, 600), head(src, 2500)), caseIdx, src)
 			return
+		}
+		if norm != nil {
+			g = norm(k, g)
 		}
 		if g != pr.want {
 			c.Violate(pr.site+":wrong", fmt.Sprintf("probe %d (%s): model says %s, elk printed %s\nprogram:\n%s", k, pr.what, pr.want, g, head(src, 3000)), caseIdx, src)
